@@ -152,6 +152,7 @@ func loadMaterial(dir string) *material {
 		m.Leaf["rsaA-e3"] = readCertFile(m.path("rsaA.same-modulus-exponent-3.crt"))[0]
 	}
 	m.loadPGPStructs()
+	m.loadLeafAlgs()
 	return m
 }
 
